@@ -32,6 +32,18 @@ Definition model_obs_seq (lo hi s : Z) (vs : list Z) : Z * Z * list bar :=
   let '(h, k) := record_all (new lo hi s) vs in
   (Z.of_nat (length vs) - k, h_total h, distribution h).
 
+(* a sequence of RecordCorrectedValue(v, e) calls: which calls returned nil, TotalCount, Distribution bars. The total is
+   the number of values the accepted calls stand for (v and its back-filled values), a refused call adds nothing *)
+Definition model_obs_corr (lo hi s : Z) (ops : list (Z * Z)) : list bool * Z * list bar :=
+  let '(h, oks) := record_corrected_all (new lo hi s) ops in (oks, h_total h, distribution h).
+Fixpoint corr_expected (ops : list (Z * Z)) (oks : list bool) : Z :=
+  match ops, oks with
+  | (v, e) :: r, ok :: q => (if ok : bool then Z.of_nat (length (corrected_values v e)) else 0) + corr_expected r q
+  | _, _ => 0
+  end.
+Definition c12_ok_corr (ops : list (Z * Z)) (oks : list bool) (total : Z) (bars : list bar) : bool :=
+  Nat.eqb (length ops) (length oks) && (total =? corr_expected ops oks) && (fold_right Z.add 0 (map b_count bars) =? total).
+
 Definition geometry (lo hi s : Z) : list Z :=
   let c := config_of lo hi s in
   [c_unit c; c_hm c; c_hc c; c_mask c; c_sbc c; c_bc c; c_len c].
